@@ -238,10 +238,24 @@ def check_C12(ctx):
         orders = list(itertools.permutations(range(k))) if k <= 3 else [tuple(r.sample(range(k), k)) for _ in range(4)]
         for od in orders:
             sets.append([ms[i] for i in od])
+    # token-boundary twins: patterns whose concatenated spelling coincides but whose tokens differ (`x 1` / `x1`, `a b` / `ab`),
+    # so that their verdicts differ or agree independently; both orders, alone and next to others (no private keyword in front)
+    twin_sets = []
+    for base in (['<P>', ';', 'x', '1'], ['<A>', ',', 'a', 'b'], ['foo', '<P>', ';', 'x', '2'], ['<V>', 'x', '1'], ['<P>', ';', 'a', 'b', '<ID>'],
+                 ['<ID>', '<A>', ',', 'q', '7']):
+        for j in range(len(base) - 1):
+            if re.fullmatch(r'[a-z]+', base[j]) and re.fullmatch(r'[a-z0-9]+', base[j + 1]):
+                twin = base[:j] + [base[j] + base[j + 1]] + base[j + 2:]
+                for pair in ([base, twin], [twin, base]):
+                    twin_sets.append([list(x) for x in pair])
+                    twin_sets.append([['kk', '<ID>']] + [list(x) for x in pair])
     stexts = []
+    for ms in twin_sets:
+        sets.append(ms)
     for ms in sets:
-        defs = '\n'.join('DEFINE %s AS r%s END DEFINE' % (' '.join(m), m[0][1:]) for m in ms)
-        uses = ' @ '.join(' '.join(FILL.get(x, x) for x in m) for m in ms)
+        keyed = all(re.fullmatch(r'k\d+', m[0]) for m in ms)
+        defs = '\n'.join('DEFINE %s AS r%s END DEFINE' % (' '.join(m), m[0][1:] if keyed else str(i)) for i, m in enumerate(ms))
+        uses = ' @ '.join(' '.join(FILL.get(x, x) for x in m) for m in ms) if keyed else '@'
         stexts.append(defs + '\n' + uses)
     stoks = front.scan_tokens(ctx, stexts)
     sex = impl(ctx, ['EXTRACT ' + t for t in stoks])
@@ -265,6 +279,9 @@ def check_C12(ctx):
             ctx.violation('nonlr-set-verdict', 'macro set: non-linear errors reported at lines %s, the independent LR(1) construction rejects the definitions at lines %s' % (rej_lines, want), {'source': t})
             continue
         out = [tk[1].decode('latin1') for tk in parse_toks(f['toks'])]
+        if not all(re.fullmatch(r'k\d+', m[0]) for m in ms):
+            ctx.nontrivial('twins:' + t[:200])
+            continue
         for i, m in enumerate(ms):
             name = m[0]
             if verdict[' '.join(m)] and name not in out:
